@@ -67,7 +67,7 @@ func indexCases(run *hx.Run, low *sdb.Database, d *hx.DB, t *hx.TableInfo) []idx
 			}
 			c.where = " WHERE " + *gm.Where
 		}
-		c.order, err = hx.OrderByIndex(ix, gm)
+		c.order, err = hx.OrderByIndex(ix, gm, t.RowidName())
 		if err != nil {
 			run.Count("index_order_unknown", 1)
 			continue
@@ -75,8 +75,8 @@ func indexCases(run *hx.Run, low *sdb.Database, d *hx.DB, t *hx.TableInfo) []idx
 		c.cols = t.ColNames()
 		c.sel = selectList(c.cols)
 		if t.WR == 0 {
-			c.cols = append([]string{"rowid"}, c.cols...)
-			c.sel = "rowid, " + c.sel
+			c.cols = append([]string{t.RowidName()}, c.cols...)
+			c.sel = t.RowidName() + ", " + c.sel
 		}
 		out = append(out, c)
 	}
